@@ -21,3 +21,9 @@ func VerifEnumerateRanges(minBound, maxBound int64, precisionStep uint, filter f
 
 // VerifIncrementBytes exposes incrementBytes.
 func VerifIncrementBytes(in []byte) []byte { return incrementBytes(in) }
+
+// VerifEnumerateRange runs termRange.Enumerate on one (start, end) pair.
+func VerifEnumerateRange(start, end []byte, filter func([]byte) bool) [][]byte {
+	tr := newRangeBytes(start, end)
+	return tr.Enumerate(filter)
+}
